@@ -5,7 +5,18 @@
 wt=$1; n=$2; id=$3; m=$wt/mutants/$n
 cd $wt || exit 9
 git checkout -q -- src 2>/dev/null
-cmd=$(grep -m1 -E "g\+\+ .*demo" $m/demo.cpp | sed 's/^[ \t/*]*//; s/\$BUILD/_b/g')
+cmd=$(python3 - "$m/demo.cpp" <<'PY'
+import sys,re
+ls=open(sys.argv[1]).read().split('\n')[:60]; out=''
+for i,l in enumerate(ls):
+    if 'g++' in l and 'demo' in l:
+        j=i; cur=re.sub(r'^[\s/*]+','',l)
+        while cur.rstrip().endswith('\\'):
+            j+=1; cur=cur.rstrip()[:-1]+' '+re.sub(r'^[\s/*]+','',ls[j])
+        out=cur; break
+print(out.replace('$BUILD','_b').replace('<B>','_b'))
+PY
+)
 [ -z "$cmd" ] && { echo "$id: no demo command"; exit 8; }
 log=$m/confirm.log; : > $log
 build() { cmake -G Ninja -B _b -DCMAKE_BUILD_TYPE=RelWithDebInfo >>$log 2>&1 && cmake --build _b >>$log 2>&1; }
